@@ -317,7 +317,14 @@ func genScript(r *rng.R, tag string, ordered bool, wantMulti bool, hot bool, n i
 //     precedes b in the list must then be held by the long call (probes park), keys of later shards must be free.
 //   variant 2 (deadlock): a short RLocks [a,b] and the long Locks meet on a and b while a reader and a writer hand a over.
 func genLongList(r *rng.R, variant int) corr.Case {
-	sh := shape{kind: "tkg", hash: r.Pick("mod", "xh", "str"), prime: r.PickInt(2, 2, 3), N: 0, K: r.Range(13, 24)}
+	sh := shape{kind: "tkg", hash: r.Pick("mod", "xh", "str"), prime: r.PickInt(2, 2, 3), N: 0, K: r.PickInt(r.Range(13, 24), r.Range(13, 24), r.Range(25, 40))}
+	if variant == 3 {
+		sh.K = r.Range(30, 40)
+		sh.kind = r.Pick("tkg", "tkl")
+		if sh.kind == "tkl" {
+			sh.prime = 1
+		}
+	}
 	for i := 0; i < sh.K; i++ {
 		sh.shards = append(sh.shards, r.Intn(sh.prime))
 	}
@@ -353,6 +360,27 @@ func genLongList(r *rng.R, variant int) corr.Case {
 	lw := map[bool]string{true: "locks", false: "rlocks"}
 	sw := map[bool]string{true: "lock", false: "rlock"}
 	uw := map[bool]string{true: "unlock", false: "runlock"}
+	if variant == 3 {
+		// all held: a long Locks/RLocks returns; every listed key — also beyond any internal limit — must then be held
+		mWrite := r.Chance(2, 3)
+		var probes []int
+		probes = append(probes, list[len(list)-1], list[len(list)-2], list[0])
+		for len(probes) < 8 {
+			probes = append(probes, list[r.Intn(len(list))])
+		}
+		sh.N = 1 + len(probes)
+		lines := []string{sh.init(), fmt.Sprintf("%s 0 %s", lw[mWrite], keyList(list))}
+		seenP := map[int]bool{}
+		for i, a := range probes {
+			if seenP[a] {
+				continue
+			}
+			seenP[a] = true
+			lines = append(lines, fmt.Sprintf("lock %d %d", 1+i, a))
+		}
+		lines = append(lines, "counts "+strconv.Itoa(list[len(list)-1]), fmt.Sprintf("%s 0 %s", map[bool]string{true: "unlocks", false: "runlocks"}[mWrite], keyList(list)), "drain", "entries")
+		return corr.Case{Tag: "long-list-all-held", Lines: lines}
+	}
 	if variant < 2 {
 		bi := len(same) - 1
 		if variant == 1 {
@@ -396,12 +424,27 @@ func genLongList(r *rng.R, variant int) corr.Case {
 	return corr.Case{Tag: "long-list-deadlock", Lines: lines}
 }
 
+// genStress: a genuinely parallel run (no scheduler) on a fresh locker of the given shape; monitors only.
+func genStress(r *rng.R, tier string) corr.Case {
+	sh := genShape(r, r.Bool())
+	sh.K = r.Range(1, 4)
+	sh.shards = sh.shards[:0]
+	for i := 0; i < sh.K; i++ {
+		sh.shards = append(sh.shards, r.Intn(sh.prime))
+	}
+	it := 150
+	if tier != "quick" {
+		it = r.PickInt(300, 1000, 3000)
+	}
+	return corr.Case{Tag: "parallel-stress", Lines: []string{sh.init(), fmt.Sprintf("stress %d %d", r.PickInt(4, 8, 12), it), "entries"}}
+}
+
 func genMalformed(r *rng.R) corr.Case {
 	sh := genShape(r, false)
 	lines := []string{sh.init()}
 	bad := []string{"lock", "lock 0", "lock 0 0 0", "lock x 0", "lock 0 x", "lock 99 0", "lock 0 99", "lock -1 0", "lock 00 0", "locks 0 0,,1",
 		"locks 0 ,", "locks 0 0,99", "unlocks 0", "Lock 0 0", "counts", "counts 99", "counts x", "entries 1", "drain 0", "", "  ", "rlock 0 0 extra",
-		"runlock 0 +0", "locks 0 0;1", "init", "init kl mod 1", "init zz mod 1 2 1 0", "init kl mod 2 2 1 0", "init tkg mod 2 2 2 0 2", "init tkg mod 2 2 2 0",
+		"runlock 0 +0", "locks 0 0;1", "stress", "stress 0 10", "stress 4", "stress 17 10", "stress 4 5001", "stress x 1", "init", "init kl mod 1", "init zz mod 1 2 1 0", "init kl mod 2 2 1 0", "init tkg mod 2 2 2 0 2", "init tkg mod 2 2 2 0",
 		"init tkg md5 2 2 2 0 1", "init tkg mod 0 2 1 0", "init tkg mod 2 0 1 0", "init tkg mod 2 17 1 0", "init tkg mod 101 2 1 0"}
 	for i := 0; i < 8; i++ {
 		switch r.Intn(3) {
@@ -514,8 +557,15 @@ func fixedCases() []corr.Case {
 	}
 	// long multi-key lists on sharded lockers (same-shard keys must keep the caller's order, whatever the list length)
 	lr := rng.New(20260930)
-	for i := 0; i < 24; i++ {
-		out = append(out, genLongList(lr.Fork(uint64(i)), i%3))
+	for i := 0; i < 32; i++ {
+		out = append(out, genLongList(lr.Fork(uint64(i)), i%4))
+	}
+	// nested single-key locking across shards (key 0 -> shard 1, key 1 -> shard 0): A: Lock(0); B: Locks([0,1]); A: Lock(1) — a real
+	// deadlock of the unchanged code, outside the clause (a caller that holds a lock while acquiring another one must follow
+	// the locker's (shard, key) rank); both sides must report the same stuck threads, no deadlock verdict
+	out = append(out, mk("fixed-nested-cross-shard", "init tkg mod 2 2 2 1 0", "lock 0 0", "locks 1 0,1", "lock 0 1", "drain", "entries"))
+	for _, init := range []string{"init kl mod 1 2 3 0 0 0", "init klg xh 3 2 3 0 1 2", "init tkl str 1 2 3 0 0 0", "init tkg mod 2 2 4 0 1 0 1", "init tkg xh 73 2 3 5 5 9"} {
+		out = append(out, mk("fixed-parallel-stress", init, "stress 8 200", "entries"))
 	}
 	// an unordered nest of single locks: a real deadlock, expected (no order discipline) — both sides must report the same stuck threads
 	out = append(out, mk("fixed-unordered-deadlock", "init kl mod 1 2 2 0 0", "lock 0 0", "lock 1 1", "lock 0 1", "lock 1 0", "drain", "entries"))
@@ -559,7 +609,9 @@ func spec() corr.Spec {
 			}
 			switch x := r.Intn(100); {
 			case x < 8:
-				return genLongList(r, r.Intn(3))
+				return genLongList(r, r.Intn(4))
+			case x < 11:
+				return genStress(r, tier)
 			case x < 30:
 				return genScript(r, "ordered-multi", true, true, false, n)
 			case x < 50:
@@ -591,10 +643,13 @@ func spec() corr.Spec {
 			}
 			return parked && calls >= 4
 		},
-		Rule: "scripts of lock/rlock/unlock/runlock/locks/rlocks/unlocks/runlocks by 2..6 threads over 1..4 keys (long-list classes: 13..24 keys on 2..3 shards, up to 15 threads) on KeyLocker, KeyLockerGrp, TKeyLocker[int|string], TKeyLockerGrp[int|string] (modulo / xxhash routing, 1,2,3,73 shards; shard patterns: one shard, opposite to key order, random); each call runs in its own goroutine until it returns or parks (quiescence from goroutine states); thorough adds every script of <= 5 valid single-key calls by 3 threads over 2 keys on all four lockers; classes: order-respecting multi-key, single-key, hot key (1..2 keys, up to 6 threads), unordered (deadlocks allowed), malformed lines; every script ends with drain + entries; non-trivial = some call parked and >= 4 calls ran; distinct = distinct script text",
+		Rule: "scripts of lock/rlock/unlock/runlock/locks/rlocks/unlocks/runlocks by 2..6 threads over 1..4 keys (long-list classes: 13..24 keys on 2..3 shards, up to 15 threads) on KeyLocker, KeyLockerGrp, TKeyLocker[int|string], TKeyLockerGrp[int|string] (modulo / xxhash routing, 1,2,3,73 shards; shard patterns: one shard, opposite to key order, random); each call runs in its own goroutine until it returns or parks (quiescence from goroutine states); thorough adds every script of <= 5 valid single-key calls by 3 threads over 2 keys on all four lockers; classes: order-respecting multi-key, single-key, hot key (1..2 keys, up to 6 threads), unordered (deadlocks allowed), malformed lines, parallel-stress (G goroutines on a fresh locker, occupancy counters per key); every script ends with drain + entries; non-trivial = some call parked and >= 4 calls ran; distinct = distinct script text",
 		Assumptions: []string{
 			"sync.RWMutex / sync.Mutex behave as documented (writer preference; a blocked writer excludes later readers); pending writers are admitted in arrival order when nothing else runs (observed, not relied upon by the theorems: the model admits any pending writer)",
 			"a runnable goroutine eventually runs; a holder eventually unlocks (premise of the deadlock clause)",
+			"keys are valid Go map keys with reflexive equality and, for the group lockers, of a type remap can route (a NaN key can never be unlocked, an unhashable dynamic type or an unroutable type panics inside the table-mutex section and wedges the locker: Go map / remap semantics, outside the property)",
+			"deadlock clause: every call uses an ascending duplicate-free list; a caller that already holds locks while acquiring more follows the locker's own (shard, key) rank (the runner judges only same-shard nesting, which is safe for any comparator direction); nested locking across shards in key order alone can deadlock (fixed-nested-cross-shard) and is outside the clause",
+			"the oracle mirrors the wake-up behaviour of sync.RWMutex/sync.Mutex of Go 1.23 (reader tokens, FIFO among sleeping writers); another correct RW lock or a Go release with different wake-ups shows as P/T disagreements on the unchanged tree — a harness issue to fix in the model, not a finding (writer preference is not part of the property)",
 			"callers unlock only what they hold, in the mode they hold it (anything else crashes the Go runtime; such ops are refused as `misuse` by runner and oracle alike)",
 			"the shard index of a key is taken from the public remap API (routing itself is property C17)",
 		},
